@@ -191,6 +191,10 @@ func c02Run(t *testing.T, run *Run, sc c02Scenario) {
 			id := fmt.Sprintf("s%d-%d", dep, s)
 			metas[id] = meta{dep: dep, slow: true}
 			r := Req{ID: id, Host: "c02.example", Path: "/slow", Lat: sc.SlowLat}
+			if s%2 == 1 {
+				// a streamed (chunked, no Content-Length) response whose second half is still to come
+				r = Req{ID: id, Host: "c02.example", Path: "/slow", Mode: "stream", Gap: sc.SlowLat}
+			}
 			if cookie != "" {
 				r.Hdr = [][2]string{{"Cookie", cookie}}
 			}
@@ -347,7 +351,11 @@ func c02Run(t *testing.T, run *Run, sc c02Scenario) {
 				sig = fmt.Sprintf("resolved@%d,gate@%d,claim@%d", a, b, cc)
 			}
 		}
-		good := r.Status == 200 && allowed[r.Target] && string(r.Body) == r.Target && r.Err == ""
+		wantBody := r.Target
+		if m.slow && string(r.Body) != r.Target {
+			wantBody = "part1part2" // streamed variant
+		}
+		good := r.Status == 200 && allowed[r.Target] && string(r.Body) == wantBody && r.Err == ""
 		if !good {
 			nviol++
 			kind := "error-status"
